@@ -87,6 +87,16 @@ def cases(tier, seed):
                     out.append({"n": 2, "vk": vk, "rows": [list(r) for r in rows], "obj": "qfull", "fmt": FMTS[idx % 4], "si": si,
                                 "pp": {"validate_input": False}, "lat": [1, 2] if tier == "quick" else [0, 1, 2, 3]})
                     idx += 1
+    # further scipy storage classes with a numeric .data array: DIA (as produced by scipy.sparse.diags) and BSR.  (LIL and DOK matrices make
+    # the validating evaluator raise a TypeError on the unmodified tree - their .data is not a numeric array; they are treated as outside the
+    # documented interface, see DESIGN 10.2)
+    for fmt in ("dia", "bsr"):
+        for vk in (["free", "boxed"], ["lower", "upper"]):
+            for rows in ([("bilinear", "eq0")], [("sphere", "ranged"), ("affine", "upper")], []):
+                for obj in ("qfull", "cubic"):
+                    for si in range(7):
+                        out.append({"n": 2, "vk": vk, "rows": [list(r) for r in rows], "obj": obj, "fmt": fmt, "si": si,
+                                    "lat": [1, 2] if tier == "quick" else [0, 1, 2, 3]})
     # variable bounds handed over as integer-typed arrays
     for vk in (["intbox", "intbox"], ["intbox"]):
         for rows in ([], [("affine", "ranged")], [("sphere", "upper"), ("affine", "eqoff")], [("affine", "introw")], [("sphere", "inteq"), ("affine", "introw")],
